@@ -100,10 +100,26 @@ class PathInfo:
                             return False
                         if v in ("Ok", "Some") and "Break" in d[2] and "Continue" not in d[2]:
                             return False
+            elif d[0] == "int":
+                c = terms.strip(d[3])
+                if c[0] == "const" and c[1] == "int":
+                    # switch on a value that is a literal on this path
+                    if d[2] and d[2][0] == "otherwise":
+                        if c[2] in d[2][1:]:
+                            return False
+                    elif c[2] not in d[2]:
+                        return False
             elif d[0] == "bool":
                 c = terms.strip(d[3])
                 if c[0] == "const" and c[1] == "int" and bool(c[2]) != d[2]:
                     return False      # `matches!`-style flag set to a literal earlier on this path
+                if c[0] == "bin" and c[1] in ("Eq", "Ne", "Lt", "Le", "Gt", "Ge"):
+                    l_, r_ = terms.strip(c[2]), terms.strip(c[3])
+                    if l_[0] == "const" and r_[0] == "const" and l_[1] == "int" and r_[1] == "int":
+                        # both operands are literals on this path (e.g. a radix chosen by an earlier match arm)
+                        val = {"Eq": l_[2] == r_[2], "Ne": l_[2] != r_[2], "Lt": l_[2] < r_[2], "Le": l_[2] <= r_[2], "Gt": l_[2] > r_[2], "Ge": l_[2] >= r_[2]}[c[1]]
+                        if val != d[2]:
+                            return False
                 prev = seen.get(("b", d[1]))
                 if prev is not None and prev != d[2]:
                     return False
